@@ -4,7 +4,7 @@ A(t, n, x) == [k |-> "add", ts |-> t, n |-> n, x |-> x]
 G(t, n, x) == [k |-> "get", ts |-> <<t>>, n |-> n, x |-> x]
 \* C05 family: publications and non-optional lookups over two keys
 Svc == [k |-> "svc", ts |-> <<>>, n |-> "", x |-> ""]
-Ops5 == {A(<<"A">>, "n", "res2"), A(<<"B">>, "n", "fac"), G("A", "n", "wait"), G("B", "n", "wait"), Svc}
+Ops5 == {A(<<"A">>, "n", "res2"), A(<<"B">>, "n", "afac"), G("A", "n", "wait"), G("B", "n", "wait"), Svc}    \* (B through an asynchronous factory; C06 has the synchronous ones)
 \* C06 family: matching and non-matching publications of every kind against every kind of lookup of (A, m)
 Ops6Add == {A(<<"A">>, "m", "res"), A(<<"A">>, "m", "res2"), A(<<"A">>, "n", "res"), A(<<"B">>, "m", "res"), A(<<"A">>, "m", "fac"), A(<<"A">>, "m", "afac"),
             A(<<"A", "B">>, "m", "res"), A(<<"A">>, "default", "res")}
